@@ -12,7 +12,10 @@ cd $W
 export CARGO_NET_OFFLINE=true
 A=$(cargo test --offline --test seed_demo 2>&1 | grep -E "^test result" | head -1)
 if ! git apply $SD/patch.diff; then echo "PATCH-DOES-NOT-APPLY"; exit 2; fi
-B=$(cargo test --offline --test seed_demo 2>&1 | grep -E "^test result" | head -1)
+BOUT=$(cargo test --offline --test seed_demo 2>&1); BRC=$?
+B=$(echo "$BOUT" | grep -E "^test result" | head -1)
+# a demonstration that aborts the test process (stack overflow, abort) prints no result line
+if [ -z "$B" ] && [ $BRC -ne 0 ] && echo "$BOUT" | grep -qE "SIGABRT|SIGSEGV|overflowed its stack|signal: "; then B="FAILED (test process died: $(echo "$BOUT" | grep -E "SIGABRT|SIGSEGV|overflowed its stack|signal: " | head -1 | cut -c1-160))"; fi
 rm -f tests/seed_demo.rs
 C=$(cargo test --workspace --no-fail-fast --offline 2>&1 | grep -E "^test result" | tr '\n' ';')
 git checkout -q -- .
